@@ -124,9 +124,13 @@ def innermost_frame(e):
     if cause is not e:
         tb = traceback.extract_tb(cause.__traceback__) or tb
     frame = None
-    for fr in tb:
-        if "onnxscript" in fr.filename or "onnx_ir" in fr.filename:
+    for fr in tb:  # the innermost frame of the code under test (onnxscript); failing that, of onnx_ir; failing that, the innermost frame
+        if "/onnxscript/" in fr.filename:
             frame = fr
+    if frame is None:
+        for fr in tb:
+            if "onnx_ir" in fr.filename:
+                frame = fr
     if frame is None and tb:
         frame = tb[-1]
     where = f"{frame.filename.split('/')[-1]}:{frame.name}" if frame else "?"
